@@ -103,7 +103,7 @@ pub fn hist_case(name: &str, cfg: CfgSpec, steps: Vec<H>) -> Case {
                             step::post_op(&cx, &b, &op, &out);
                             trace.push(format!("{}:{}", op.name().split('{').next().unwrap_or(""), out.tx.kind()));
                             symcore::note(format!("m{i}={}", step::behaviour_digest(&out)));
-                            if step::channel_orphan(&b, &op, &out) {
+                            if step::history_broken(&b, &op, &out) {
                                 symcore::note(format!("outcome=stopped@{i}:orphan"));
                                 symcore::note(format!("detail={}", trace.join(",")));
                                 return;
@@ -120,6 +120,11 @@ pub fn hist_case(name: &str, cfg: CfgSpec, steps: Vec<H>) -> Case {
                         step::post_op(&cx, &b, op, &out);
                         trace.push(format!("{}:{}", op.name().split('{').next().unwrap_or(""), out.tx.kind()));
                         symcore::note(format!("m{i}={}", step::behaviour_digest(&out)));
+                        if step::history_broken(&b, op, &out) {
+                            symcore::note(format!("outcome=stopped@{i}:orphan"));
+                            symcore::note(format!("detail={}", trace.join(",")));
+                            return;
+                        }
                         if out.tx.is_ok() != *expect_ok {
                             symcore::note(format!("outcome=stopped@{i}:{}", out.tx.kind()));
                             symcore::note(format!("detail={} :: {}", trace.join(","), out.tx.detail()));
